@@ -45,6 +45,17 @@ def run(rng, tier, res=None):
         else:
             X = np.array([[rng.gauss(sep * Y[i], 1.0) for _ in range(d)] for i in range(n)])
         Xt, Yt, Xv, Yv = X[:nt].copy(), Y[:nt].copy(), X[nt:].copy(), Y[nt:].copy()
+        layout = rng.choice(["c", "c", "c", "column_slice", "fortran", "row_stride"])
+        if layout == "column_slice":
+            # the feature columns of a wider table: a strided view, still the caller's data
+            Wt = np.hstack([np.full((nt, 1), -7.0), Xt, np.full((nt, 1), 9.0)]); Wv = np.hstack([np.full((nv, 1), -7.0), Xv, np.full((nv, 1), 9.0)])
+            Xt, Xv = Wt[:, 1:1 + Xt.shape[1]], Wv[:, 1:1 + Xv.shape[1]]
+        elif layout == "fortran":
+            Xt, Xv = np.asfortranarray(Xt), np.asfortranarray(Xv)
+        elif layout == "row_stride":
+            Bt = np.zeros((2 * nt, Xt.shape[1])); Bt[::2] = Xt; Bv = np.zeros((2 * nv, Xv.shape[1])); Bv[::2] = Xv
+            Xt, Xv = Bt[::2], Bv[::2]
+        res.hit("layout_" + layout)
         if len(set(Yt.tolist())) < 2:
             Yt[0], Yt[1] = 0, 1
         Yv[rng.randrange(nv)] = K - 1     # keep every prediction inside opf_accuracy's class range
@@ -65,8 +76,13 @@ def run(rng, tier, res=None):
         def arrangement():
             return ([ident.get(key(r, l), -1) for r, l in zip(Xt, Yt)], [ident.get(key(r, l), -1) for r, l in zip(Xv, Yv)])
 
+        inject_acc = rng.random() < 0.25
+        inj_seq = [rng.choice([0.9950, 0.99504950, 0.99500001, 0.5, 0.50004, 0.49996, 0.2]) for _ in range(iters + 2)]
+
         def acc_wrap(a, b):
             v = G.opf_accuracy(a, b)
+            if inject_acc:
+                v = inj_seq[len(log)]      # the keep-the-best rule is specified for EVERY accuracy sequence: substitute one
             sg = o.subgraph
             log.append({"acc": float(v), "Yv": [int(x) for x in a], "preds": [int(x) for x in b],
                         "proto": [1 if nd.status == 1 else 0 for nd in sg.nodes],
@@ -103,6 +119,14 @@ def run(rng, tier, res=None):
         if kept != log[best]["forest"]:
             msgs.append(f"classifier left in the object is not the one of the best iteration {best + 1} (accuracies {accs})")
         viol(msgs, meta)
+        # every sample the learned classifier stores is one of the caller's samples WITH ITS OWN LABEL
+        pool = set(before.keys())
+        bad_nodes = [t for t, nd in enumerate(o.subgraph.nodes) if (np.ascontiguousarray(nd.features).tobytes(), int(nd.label)) not in pool]
+        if bad_nodes:
+            for pp in ("C04", "C17"):
+                res.violations.append({"property": pp, "what": f"classifier left by learn(): stored training samples {bad_nodes[:6]} carry a label that is not "
+                                       f"the label of the sample whose features they hold", "replay": meta})
+        res.hit("learned_classifier_samples_checked")
         # C01 on the classifier learn leaves behind: an optimum-path forest over the samples IT stores
         try:
             import oracles as O
